@@ -3,7 +3,7 @@ use std::collections::BTreeMap;
 use chrono::{DateTime, Utc};
 
 pub(crate) struct AppCounters {
-    pub(crate) df_count: BTreeMap<u32, i32>,
+    pub(crate) df_count: BTreeMap<u32, u64>,
     pub(crate) timestamp: DateTime<Utc>,
     pub(crate) cleanup_count: u32,
 }
